@@ -584,6 +584,14 @@ def delimiter_dims():
                 subs.append(V(L(lambda d2=d2, d3=d3: m.SingleListGrader(
                     subgrader=m.SingleListGrader(subgrader=m.StringGrader(), delimiter=d3), delimiter=d2),
                     'SLG(%r, SLG(%r))' % (d2, d3)), True, FREE))
+    # an IntervalGrader is a SingleListGrader too (its entries are separated by its own delimiter)
+    for d2 in ds:
+        subs.append(V(L(lambda d2=d2: m.IntervalGrader(delimiter=d2), 'IntervalGrader(%r)' % d2), True, FREE))
+    for d2 in ds:
+        for d3 in ds:
+            if d2 != d3:
+                subs.append(V(L(lambda d2=d2, d3=d3: m.SingleListGrader(subgrader=m.IntervalGrader(delimiter=d3), delimiter=d2),
+                                'SLG(%r, IntervalGrader(%r))' % (d2, d3)), True, FREE))
     return [('delimiter', vals(*ds, expect=SAME)), ('subgrader', subs)]
 
 
